@@ -51,23 +51,134 @@ def pure_eval(eng, expr, st):
     return res[0][1]
 
 
+def _consts_of(exprs):
+    """the uninterpreted constants occurring in the given terms"""
+    seen, out, todo = set(), set(), [e for e in exprs if isinstance(e, z3.ExprRef)]
+    while todo:
+        e = todo.pop()
+        k = e.get_id()
+        if k in seen:
+            continue
+        seen.add(k)
+        if z3.is_quantifier(e):
+            todo.append(e.body())
+        elif z3.is_app(e):
+            if e.num_args() == 0 and e.decl().kind() == z3.Z3_OP_UNINTERPRETED:
+                out.add(k)
+            else:
+                todo.extend(e.children())
+    return out
+
+
+def _val_terms(v, out):
+    if isinstance(v, Val):
+        _val_terms(v.t, out)
+        _val_terms(v.aux, out)
+    elif isinstance(v, (list, tuple)):
+        for x in v:
+            _val_terms(x, out)
+    elif isinstance(v, z3.ExprRef):
+        out.append(v)
+
+
+def _subst_val(v, sub):
+    if isinstance(v, Val):
+        return Val(v.ty, _subst_val(v.t, sub), _subst_val(v.aux, sub))
+    if isinstance(v, list):
+        return [_subst_val(x, sub) for x in v]
+    if isinstance(v, tuple):
+        return tuple(_subst_val(x, sub) for x in v)
+    if isinstance(v, z3.ExprRef):
+        return z3.substitute(v, *sub)
+    return v
+
+
+def _generalise(st, q, start_pc, start_created, side):
+    """The clauses were evaluated for ARBITRARY index values (the index variables are free constants
+    while the element expression is evaluated).  Facts assumed meanwhile -- results of calls used through
+    their contracts, of min/max/sum over an inner generator, typing facts of loaded values -- speak about
+    those indices and about result constants that depend on them.  They are turned into what they mean:
+    each result constant c becomes a Skolem function c$sk(indices) and each fact F becomes
+    `forall own indices. guards and side-conditions => F` (the side conditions -- pre-conditions, no
+    exception -- are proved separately for every index satisfying the guards)."""
+    from .values import CREATED
+    new = st.pc[start_pc:]
+    if not new and not CREATED[start_created:]:
+        return side
+    tags = {i - start_pc: st.tags.pop(i) for i in list(st.tags) if i >= start_pc}
+    del st.pc[start_pc:]
+    allq = list(st.qstack)
+    own = list(q.vars)
+    qids = {v.get_id() for v in allq}
+    terms = list(new) + list(q.guard) + [ok for ok, _, _ in side]
+    _val_terms(q.elem, terms)
+    used = _consts_of(terms)
+    sub = []
+    for c in CREATED[start_created:]:
+        if c.get_id() in qids or c.get_id() not in used or c.sort().kind() not in (z3.Z3_INT_SORT, z3.Z3_BOOL_SORT):
+            continue
+        f = z3.Function(c.decl().name() + "$sk", *[v.sort() for v in allq], c.sort())
+        sub.append((c, f(*allq)))
+    if sub:
+        q.guard = [z3.substitute(g, *sub) for g in q.guard]
+        q.elem = _subst_val(q.elem, sub)
+        side = [(z3.substitute(ok, *sub), exc, node) for ok, exc, node in side]
+        if getattr(q, "item_terms", None):
+            q.item_terms = [None if t is None else z3.substitute(t, *sub) for t in q.item_terms]
+    cond = z3.And(list(q.guard) + [ok for ok, _, _ in side]) if (q.guard or side) else z3.BoolVal(True)
+    ownids = {v.get_id() for v in own}
+    for i, fact in enumerate(new):
+        f2 = z3.substitute(fact, *sub) if sub else fact
+        if _consts_of([f2]) & ownids:
+            apps = [a for _, a in sub if a.get_id() in _subterm_ids(f2)]
+            pats = apps[:1]
+            items = [t for t in (getattr(q, "item_terms", None) or []) if t is not None]
+            if len(items) == len(own):
+                # the element of the iterable at the index is a second way to reach the fact
+                pats = pats + ([items[0]] if len(own) == 1 else [z3.MultiPattern(*items)])
+            f2 = forall(own, z3.Implies(cond, f2), patterns=pats or None)
+        st.assume(f2, tags.get(i))
+    return side
+
+
+def _subterm_ids(e):
+    seen, todo = set(), [e]
+    while todo:
+        x = todo.pop()
+        k = x.get_id()
+        if k in seen:
+            continue
+        seen.add(k)
+        if z3.is_quantifier(x):
+            todo.append(x.body())
+        elif z3.is_app(x):
+            todo.extend(x.children())
+    return seen
+
+
 def eval_generators(eng, generators, elt, st, want_elem=True):
     """Evaluates `elt for t1 in it1 if c1 for t2 in it2 ...` with one universally
     quantified index variable per clause.  Exceptions possible inside become side
     conditions: a raising path is forked if some element can raise."""
+    from .values import CREATED
     outer = st.pure
     st.pure = []
     saved_env = st.env
     st.env = dict(st.env)
     q = Quant()
+    start_pc, start_created, depth = len(st.pc), len(CREATED), len(st.qstack)
     try:
         for g in generators:
             if g.is_async:
                 raise _oos("async comprehension")
             itv = pure_eval(eng, g.iter, st)
             view = eng.as_view(itv, st)
+            if not q.vars:
+                # the first iterable is evaluated once, outside the quantified context
+                start_pc, start_created = len(st.pc), len(CREATED)
             v = fresh("q")
             q.vars.append(v)
+            st.qstack.append(v)
             q.views.append(view)
             q.guard.append(z3.And(v >= 0, v < view.n))
             item = view.get(st.heap, v)
@@ -85,10 +196,11 @@ def eval_generators(eng, generators, elt, st, want_elem=True):
                 q.guard.append(eng.truthy(cv, st))
         if want_elem:
             q.elem = pure_eval(eng, elt, st)
-        side = st.pure
+        side = _generalise(st, q, start_pc, start_created, st.pure)
     finally:
         st.pure = outer
         st.env = saved_env
+        del st.qstack[depth:]
     raising = []
     cur = st
     for ok, exc, node in side:
@@ -127,6 +239,9 @@ def list_comprehension(eng, e, st):
                                patterns=[h.at(outer, qv)]))
             out.append((s, outer))
         return out
+    if (len(e.generators) == 1 and not e.generators[0].ifs and isinstance(e.elt, ast.ListComp)
+            and len(e.elt.generators) == 1 and not e.elt.generators[0].ifs and not isinstance(e.elt.elt, ast.ListComp)):
+        return _matrix_comprehension(eng, e, st)
     cur, q, raising = eval_generators(eng, e.generators, e.elt, st)
     out = [(r, None) for r in raising]
     if cur is None:
@@ -171,6 +286,42 @@ def list_comprehension(eng, e, st):
                              patterns=[inv(v)] + item_terms[:1]))
         cur.aux["last_filter"] = (src, inv, ln)
     out.append((cur, r))
+    return out
+
+
+def _matrix_comprehension(eng, e, st):
+    """[[elt for t2 in it2] for t1 in it1]: one new outer list and a block of n1 new row lists
+    (references base .. base+n1-1); row v1 has the length of it2(v1) and elt(v1, v2) at v2."""
+    from .engine import Frame
+    inner = e.elt
+    cur, q, raising = eval_generators(eng, [e.generators[0], inner.generators[0]], inner.elt, st)
+    out = [(r, None) for r in raising]
+    if cur is None:
+        return out
+    v1, v2 = q.vars
+    view1, view2 = q.views
+    elem = q.elem
+    region = eng.alloc_region
+    R = eng.new_list(cur, LIST(LIST(elem.ty, region), region))
+    n1 = fresh("nrows")
+    cur.assume(n1 == z3.If(view1.n > 0, view1.n, 0))
+    cur.heap = cur.heap.set_len(R, 0)
+    h1 = cur.heap
+    base = h1.alloc
+    h2 = eng.havoc(cur, Frame(alloc_lists=True), h1)
+    cur.heap = h2
+    cur.assume(h2.alloc == base + n1)
+    h2 = h2.set_len(R, n1)
+    rows = fresh("rows", z3.ArraySort(I, I))
+    h2 = h2.set_elarr(R, rows)
+    cur.heap = h2
+    row = (base + v1, region)
+    n2 = z3.If(view2.n > 0, view2.n, 0)
+    cur.assume(forall([v1], z3.Implies(q.guard[0], z3.And(z3.Select(rows, v1) == base + v1, h2.len(row) == n2)),
+                      patterns=[z3.Select(rows, v1)]))
+    cur.assume(forall([v1, v2], z3.Implies(z3.And(q.guard), h2.at(row, v2) == to_int(elem)),
+                      patterns=[h2.at(row, v2)]))
+    out.append((cur, Val(LIST(LIST(elem.ty, region), region), R.t)))
     return out
 
 
@@ -455,19 +606,32 @@ def b_sum(eng, e, st):
         n = q.views[0].n
         x = eng.num(q.elem)
         spec = (getattr(eng.cur, "sum_specs", None) or {}).get(ast.unparse(e))
-        if spec is not None and cur.pure is None:
+        if spec is not None:
             # SUM RULE (induction built into the verifier, like a loop invariant): if a
             # spec-level prefix-sum G satisfies G(0) = 0 and G(v+1) = G(v) + x(v) on [0, n)
             # -- both proved here as obligations -- then sum(x(v) for v < n) = G(n).
             from .engine import Ctx
             G = spec(Ctx(eng, eng.h0, cur.heap, eng.args0), cur)
             nn = z3.If(n > 0, n, 0)
-            eng.oblige(cur, f"sum-rule:init:{ast.unparse(e)[:40]}", G(z3.IntVal(0)) == 0, "sum", e)
-            eng.oblige(cur, f"sum-rule:step:{ast.unparse(e)[:40]}",
-                       forall([v], z3.Implies(z3.And(v >= 0, v < n), G(v + 1) == G(v) + x)), "sum", e)
+            init = G(z3.IntVal(0)) == 0
+            step = forall([v], z3.Implies(z3.And(v >= 0, v < n), G(v + 1) == G(v) + x))
+            if cur.pure is None:
+                eng.oblige(cur, f"sum-rule:init:{ast.unparse(e)[:40]}", init, "sum", e)
+                eng.oblige(cur, f"sum-rule:step:{ast.unparse(e)[:40]}", step, "sum", e)
+            else:
+                # inside a quantified context (G mentions the enclosing index variables): the two
+                # premises become side conditions, proved for every enclosing index
+                cur.pure.append((init, "SumRuleInit", e))
+                cur.pure.append((step, "SumRuleStep", e))
             out.append((cur, vint(G(nn))))
             return out
-        ps = z3.Function(f"psum!{fresh('s')}", I, I)
+        if cur.qstack:
+            # the partial sums depend on the enclosing index variables
+            psf = z3.Function(f"psum!{fresh('s')}", *([I] * len(cur.qstack)), I, I)
+            qs = list(cur.qstack)
+            ps = lambda t: psf(*qs, t)  # noqa: E731
+        else:
+            ps = z3.Function(f"psum!{fresh('s')}", I, I)
         cur.assume(ps(0) == 0)
         cur.assume(forall([v], z3.Implies(z3.And(v >= 0, v < n), ps(v + 1) == ps(v) + x), patterns=[ps(v + 1)]))
         hook = getattr(eng.cur, "sum_hook", None)
@@ -482,6 +646,17 @@ def b_sum(eng, e, st):
         view = eng.as_view(pos[0], s)
         v = fresh("q")
         x = eng.num(view.get(s.heap, v))
+        if s.qstack:
+            raise _oos("sum(list) inside a quantified expression")
+        spec = (getattr(eng.cur, "sum_specs", None) or {}).get(ast.unparse(e))
+        if spec is not None:
+            from .engine import Ctx
+            G = spec(Ctx(eng, eng.h0, s.heap, eng.args0), s)
+            eng.oblige(s, f"sum-rule:init:{ast.unparse(e)[:40]}", G(z3.IntVal(0)) == 0, "sum", e)
+            eng.oblige(s, f"sum-rule:step:{ast.unparse(e)[:40]}",
+                       forall([v], z3.Implies(z3.And(v >= 0, v < view.n), G(v + 1) == G(v) + x)), "sum", e)
+            out.append((s, vint(G(z3.If(view.n > 0, view.n, 0)))))
+            continue
         ps = z3.Function(f"psum!{fresh('s')}", I, I)
         s.assume(ps(0) == 0)
         s.assume(forall([v], z3.Implies(z3.And(v >= 0, v < view.n), ps(v + 1) == ps(v) + x), patterns=[ps(v + 1)]))
